@@ -35,6 +35,13 @@ def mkCont (c : Cfg) (spec : String) (seq : List Nat) : R (Option (Cont c) × Li
     pure ((Lmer.fromSlice n seq).map (ofLmer c), seq)
   | ["bytes"] => pure (some (ofBytes c seq), seq)
   | ["dslice"] => pure (some (ofBytes c seq), seq)
+  | ["grown", a, b, r, tail, how] => do
+    -- an owned copy of a view, grown afterwards by `push`, `extend` or `push_bytes`
+    let tl ← natDigits tail
+    let packed := (List.range ((tl.length + 3) / 4)).map fun j => ((tl.drop (4 * j)).take 4).zipIdx.foldl (fun acc x => acc + x.1 * 4 ^ x.2) 0
+    let v := (DnaStr.fromBytes seq).bind fun d => (sliceSpec d [a, b, r]).bind fun s => (DnaStr.Slice.toOwned d s).bind fun o =>
+      if how == "push" then tl.foldlM DnaStr.push o else if how == "ext" then DnaStr.extend o tl else DnaStr.pushBytes o packed tl.length
+    pure (v.map (ofDnaString c), sliceBases seq [a, b, r] ++ tl)
   | _ => throw "bad-container"
 
 def showKs (c : Cfg) (l : List (St c)) : String := if l.isEmpty then "-" else ",".intercalate (l.map (showK c))
